@@ -134,10 +134,18 @@ func runProperty(p *Property, info *runInfo, repo string, thorough, nomut, dump 
 	return r.Finish(info, p.Explanation, p.Assumptions)
 }
 
+var debugHooks []func(c *Ctx)
+
 func debugPaths(repo, spec string) {
 	c, err := Load(repo)
 	if err != nil {
 		fmt.Println(err)
+		return
+	}
+	if spec == "hooks" {
+		for _, h := range debugHooks {
+			h(c)
+		}
 		return
 	}
 	parts := strings.Split(spec, ":")
@@ -167,4 +175,12 @@ func debugPaths(repo, spec string) {
 		fmt.Printf("  locals: %v\n", p.Locals)
 		fmt.Printf("  returns: %v\n", p.Returns)
 	}
+}
+
+func init() {
+	debugHooks = append(debugHooks, func(c *Ctx) {
+		for k, v := range settingWriters(c) {
+			fmt.Println("SETTING-WRITER", k, v)
+		}
+	})
 }
